@@ -2,7 +2,6 @@ import NitroVerif.Base.Sexp
 import NitroVerif.Gql.Codec
 import NitroVerif.Model.CheckOp
 import NitroVerif.Spec.Valid
-import NitroVerif.Spec.IntRange
 /-!
 Driver of C03 / C04 (exe `nv_c03`), line protocol:
   (op.check (tsdoc …) (doc …))     → (errs (Kind line col) …)          model of check_operation_document
@@ -21,18 +20,18 @@ def errsSexp (ds : List CheckCommon.Diag) : Sexp :=
   .list (.atom "errs" :: ds.map fun d => .list [.atom d.1.toString, Sexp.ofNat d.2.line, Sexp.ofNat d.2.col])
 
 def rulesSexp (S : Schema) (D : Doc) : Sexp :=
-  .list (.atom "rules" :: (Valid.violated Valid.ruleTable S D ++ (if Valid.rule_int32 S D then [] else [Valid.intRangeId])).map .str)
+  .list (.atom "rules" :: (Valid.violated Valid.ruleTable S D).map .str)
 
 def specSexp (S : Schema) (D : Doc) : Sexp :=
-  let v := Valid.violated (Valid.ruleTable ++ Valid.extraRuleTable) S D ++ (if Valid.rule_int32 S D then [] else [Valid.intRangeId])
+  let v := Valid.violated (Valid.ruleTable ++ Valid.extraRuleTable) S D
   .list (.atom "spec" :: Sexp.ofBool v.isEmpty :: v.map .str)
 
 /-- `rules` and `spec` at once: `violated (A ++ B) = violated A ++ violated B` (filter / map), so the implemented rules are
 evaluated once instead of twice -/
 def rulesAndSpec (S : Schema) (D : Doc) : Sexp × Sexp :=
-  -- `5.6.1-int32` (Spec/IntRange.lean: Int literals at Int positions are 32-bit values) is reported beside the table ids
-  let ir := if Valid.rule_int32 S D then [] else [Valid.intRangeId]
-  let vr := Valid.violated Valid.ruleTable S D ++ ir
+  -- the 32-bit range of Int literals at Int positions is part of rule 5.6.1 since fix e3584a3 (`Valid.leafCoercible`);
+  -- the former separate id `5.6.1-int32` is gone
+  let vr := Valid.violated Valid.ruleTable S D
   let v := vr ++ Valid.violated Valid.extraRuleTable S D
   (.list (.atom "rules" :: vr.map .str), .list (.atom "spec" :: Sexp.ofBool v.isEmpty :: v.map .str))
 
@@ -69,8 +68,7 @@ def handle : Sexp → Sexp
         | none => Sexp.err "cannot decode doc")
   | .list [.atom "kinds.table"] =>
     .list (.atom "kinds" :: ((Valid.ruleTable ++ Valid.extraRuleTable).map fun r =>
-      .list (.str r.1 :: (Valid.kindsOf r.1).map fun k => .atom k.toString)) ++
-      [.list [.str Valid.intRangeId, .atom ErrKind.TypeMismatch.toString]])
+      .list (.str r.1 :: (Valid.kindsOf r.1).map fun k => .atom k.toString)))
   | .list [.atom "flush"] => .list [.atom "flushed"]
   | _ => .list [.atom "bad-request"]
 
